@@ -121,6 +121,17 @@ func TestC03_Payload(t *testing.T) {
 				defer os.RemoveAll(dir)
 				in := filepath.Join(dir, a.Name)
 				os.WriteFile(in, a.Data, 0o644)
+				// inputs already signed by relic: the first signature becomes part of the input
+				if format != "xap" && format != "pgp" && !hostile && rapid.IntRange(0, 2).Draw(t, "presigned") == 0 {
+					pkey := rapid.SampledFrom([]string{"rsa2048a", "rsa3072"}).Draw(t, "presign_key")
+					if err := env.SignLib(&pipe.Req{SigType: a.SigType, In: in, Key: pkey, Hash: crypto.SHA256}); err == nil {
+						if blob, err := os.ReadFile(in); err == nil {
+							a = &arts.Artifact{Format: a.Format, SigType: a.SigType, Name: a.Name, Data: blob, Classes: append(append([]string{}, a.Classes...), "presigned:"+pkey), Generated: a.Generated}
+						}
+					} else {
+						os.WriteFile(in, a.Data, 0o644)
+					}
+				}
 				out := in
 				req := &pipe.Req{SigType: a.SigType, In: in, Key: key, Hash: h}
 				if newPath {
